@@ -295,6 +295,11 @@ def type_swaps(v, rng, k=4):
         out += [tuple(v), {i: x for i, x in enumerate(v)}]
     elif isinstance(v, dict):
         out += [list(v.items()), list(v)]
+        # dict subclasses are dicts: same verdict as the plain dict (and a lookup must not insert keys)
+        try:
+            out += [DictSub(v), collections.defaultdict(list, v), collections.OrderedDict(v)]
+        except Exception:
+            pass
     elif isinstance(v, _uuid.UUID):
         out += [str(v), v.int]
     elif isinstance(v, _dt.datetime):
@@ -430,6 +435,27 @@ def aimed(node, v, rng):
             if t is not None:
                 yield from aimed(t, v, rng)
         return
+    fx = node.get("value")
+    if fx is not None:
+        # an *equal instance of a subclass* of the fixed value's type still has the type and equals the value
+        try:
+            if k == "int" and not isinstance(fx, bool):
+                yield IntSub(fx), "equal_subclass_instance"
+                if fx in (0, 1):
+                    yield bool(fx), "equal_subclass_instance"
+            elif k == "str":
+                yield StrSub(fx), "equal_subclass_instance"
+            elif k == "bytes":
+                yield BytesSub(fx), "equal_subclass_instance"
+            elif k == "float":
+                yield FloatSub(fx), "equal_subclass_instance"
+            elif k == "datetime":
+                yield DateTimeSub(fx.year, fx.month, fx.day, fx.hour, fx.minute, fx.second, fx.microsecond, fx.tzinfo), \
+                    "equal_subclass_instance"
+            elif k == "date":
+                yield DateSub(fx.year, fx.month, fx.day), "equal_subclass_instance"
+        except Exception:
+            pass
     if k == "int" and isinstance(v, int) and not isinstance(v, bool):
         for f, d in (("min", -1), ("max", +1)):
             if node.get(f) is not None:
